@@ -357,3 +357,63 @@ def reader_namespaces_bind_what_writers_emit(ctx):
     ctx.check(not missing, 'write_raw_file#header', 'the header defines inf, nan and np before the data lines',
               'the file written by write_raw_file (also behind write_support_file / write_converge_file) does not define %s before its data lines: '
               'a trajectory containing it cannot be imported back' % missing, w, first_data[0], statement='raw file header lacks %s' % missing)
+
+
+@rule('C20.h', min_instances=5)
+def every_call_is_recorded_by_value(ctx):
+    """every subclass of Monitor that overrides __call__ reaches the base __call__ exactly once on every path with the caller's (x, y, id) (so n calls give length n whatever the print / log interval is), and listify - through which the base stores x and y - returns a newly built object for every iterable input (a record must not alias the caller's list, which solvers update in place)"""
+    M = ctx.cls(MO + ':Monitor')
+    subs = [k for k in ctx.model.subclasses(M, strict=True) if '__call__' in k.methods]
+    ctx.need(len(subs) >= 3, 'expected >= 3 Monitor subclasses overriding __call__, found %d' % len(subs))
+    for k in subs:
+        f = ctx.touch(k.methods['__call__'])
+        sn = selfname_of(f)
+        params = [a.arg for a in f.node.args.args]
+        ctx.need(len(params) >= 3, '%s.__call__ signature changed' % k.name)
+
+        def is_up(c):
+            return isinstance(c, ast.Call) and isinstance(c.func, ast.Attribute) and c.func.attr == '__call__' and (
+                (isinstance(c.func.value, ast.Call) and isinstance(c.func.value.func, ast.Name) and c.func.value.func.id == 'super') or
+                (isinstance(c.func.value, ast.Name) and c.func.value.id[:1].isupper()))
+        paths = [p for p in enumerate_paths(f.node, relevant=lambda n: is_up(n) or (isinstance(n, ast.Assign) and any(
+            isinstance(x, ast.Name) and x.id in params[1:4] for tg in n.targets for x in ast.walk(tg))), unroll=(0, 1)) if p.exit != 'raise']
+        ctx.stats['paths_enumerated'] += len(paths)
+        bad = None
+        for p in paths:
+            ups = []
+            b = T.Builder()
+            for e in p.events:
+                if e[0] == 'stmt':
+                    for c in calls_where(e[1], is_up, include_lambda=False):
+                        args = list(c.args)
+                        if isinstance(c.func.value, ast.Name):
+                            args = args[1:]          # Base.__call__(self, x, y, id)
+                        ups.append(tuple(T.simp(b.t(a)) for a in args[:3]))
+                    if isinstance(e[1], ast.Assign) and all(isinstance(tg, ast.Name) for tg in e[1].targets):
+                        b.exec_stmt(e[1])
+            want = tuple(('name', a) for a in params[1:4])
+            if len(ups) != 1:
+                bad = (p, 'reaches the base __call__ %d times' % len(ups))
+            elif ups[0][:len(want)] != want[:len(ups[0])] or len(ups[0]) < 2:
+                bad = (p, 'hands %s to the base __call__ instead of the caller\'s (%s)' % ([T.show(a) for a in ups[0]], ', '.join(params[1:4])))
+        ctx.check(bad is None, '%s.__call__#records' % k.name, 'every path records (x, y, id) exactly once through the base __call__ (%d paths)' % len(paths),
+                  '%s.__call__ %s on path %s: the monitor\'s length no longer equals the number of calls' % (k.name, bad[1] if bad else '', bad[0].describe(5) if bad else ''),
+                  f, bad[0].exit_node if bad and bad[0].exit_node is not None else f.node)
+    # listify: a fresh object for every iterable input
+    g = ctx.func('mystic.tools:listify')
+    xp = g.node.args.args[0].arg
+    X = ('name', xp)
+    rts = return_terms(g.node)
+    ctx.need(len(rts) >= 3, 'listify: expected >= 3 returns')
+    ctx.stats['paths_enumerated'] += len(rts)
+    scalar = ('call', ('name', 'isiterable'), (X,), ())
+    n_fresh = 0
+    for p, tm, b, conds in rts:
+        if tm == X:
+            known_scalar = decided(scalar, [(c[0], c[1]) for c in conds]) is False
+            ctx.check(known_scalar, 'listify#alias', 'the argument itself is returned only when it is not iterable',
+                      'listify returns its (iterable) argument itself on path %s: Monitor.__call__ then stores the caller\'s own list, and a later in-place update of that list rewrites every record made from it'
+                      % p.describe(5), g, p.exit_node)
+        else:
+            n_fresh += 1
+    ctx.check(n_fresh >= 2, 'listify#fresh', 'iterable inputs are rebuilt ([listify(i) for i in x] / listify(list(x)) / the 0-d element)', 'listify no longer rebuilds its input', g, g.node)
